@@ -33,6 +33,9 @@ enum Fault {
     SendFailSome,
     SendFailAll,
     LossAndDelay,
+    /// Every answer also names the searcher itself (own id at its own address or elsewhere); small
+    /// worlds, so that the searcher is often the only not-yet-queried closer node of an answer.
+    NamesSearcher,
     None,
 }
 
@@ -46,6 +49,7 @@ const FAULTS: &[Fault] = &[
     Fault::SendFailSome,
     Fault::SendFailAll,
     Fault::LossAndDelay,
+    Fault::NamesSearcher,
     Fault::None,
 ];
 
@@ -57,15 +61,18 @@ fn faults_scenario(ctx: &Ctx, idx: u64) -> Report {
         let mut rng = ChaCha8Rng::seed_from_u64(seed);
         let info = replay_info("C04", "faults", &ctx, idx);
         let target: Id = gen::rand_id(&mut rng);
+        let fault = FAULTS[(idx % FAULTS.len() as u64) as usize];
         let mut opts = SearchBedOpts::random(&mut rng, 120);
         opts.peers_max = 3;
+        if fault == Fault::NamesSearcher {
+            opts.world_size = rng.gen_range(2..10);
+        }
         let bed = SearchBed::new(seed, &mut rng, opts.clone(), &target).await;
         report.evaluations += 1;
         if !bed.bootstrapped {
             report.count("precondition_miss_not_bootstrapped");
             return report;
         }
-        let fault = FAULTS[(idx % FAULTS.len() as u64) as usize];
         let now = bed.net.now();
         {
             let mut w = bed.world.lock().unwrap();
@@ -87,6 +94,11 @@ fn faults_scenario(ctx: &Ctx, idx: u64) -> Report {
                             x.mode = if fault == Fault::Errors { Mode::Errors } else { Mode::Garbage };
                         }
                     }
+                }
+                Fault::NamesSearcher => {
+                    let elsewhere = if bed.v6 { crate::simnet::v6(0x77, 1, 7777) } else { crate::simnet::v4(77, 0, 0, 1, 7777) };
+                    w.extra_names = vec![(bed.id, if rng.gen_bool(0.6) { bed.addr } else { elsewhere })];
+                    report.count("searches_whose_answers_name_the_searcher");
                 }
                 Fault::JustInTime => w.exact_reply_latency = Some(1480 * MS),
                 Fault::JustLate => w.exact_reply_latency = Some(1500 * MS),
